@@ -73,7 +73,11 @@ class Inventory:
             sp = split_name(r['name'])
             if not sp or sp[0] is None:
                 continue
-            tname = sp[0].split('::')[-1]
+            t0 = sp[0]
+            if t0.endswith('>') and '<impl ' in t0:
+                # 'module::<impl path::Type>' (inherent impl in another module)
+                t0 = t0[t0.rindex('<impl ') + 6:-1]
+            tname = t0.split('::')[-1]
             tname = re.sub(r'<.*$', '', tname)
             sig = r.get('sig')
             if not sig:
